@@ -8,7 +8,9 @@ RULE = ("every graph on n<=3 nodes over the 9 per-pair kinds {none,->,<-,<->,->&
         "undirected edge or a 2-cycle on at most one pair (thorough); the 240 relabellings of two 5-node witnesses of the visit-order dependence of the search; seeded random ADMGs 5<=n<=7, half of them ancestral and "
         "bow-free so that valid MAGs are frequent. repeat stream (same object): every ADMG(n<=3) x every single directed-edge edit, plus 300 (3000) random n<=6 "
         "ADMGs with 1-2 edits: the three functions are called on G0 and discarded, G0 is edited in place, the judged calls run on the "
-        "same object against the model of the final graph. size stream: collider dead-end shapes with 7-14 nodes (a bidirected 3/4/5-clique "
+        "same object against the model of the final graph. boundary stream: the empty graph (fresh / emptied in place by remove_nodes_from after a warm-up), isolated nodes only "
+        "(n<=5), a node dropped in place, each with L, S omitted and with explicit empty sets (every ADMG(n<=3) also with explicit empty "
+        "sets); argument integrity on every case (graph snapshot, the two set objects stay empty). size stream: collider dead-end shapes with 7-14 nodes (a bidirected 3/4/5-clique "
         "of admissible colliders next to the true inducing path x <-> c1 <-> c2 <-> y; one- and two-sided) under rotations of the integer "
         "labels, random relabellings and alternating insertion orders (model only, oracle off above 6 nodes). distinct by canonical graph (pair); non-trivial = acyclic, no undirected edge and "
         "at least one non-adjacent pair (maximality is not vacuous)")
@@ -83,8 +85,30 @@ def size_cases(tier, rng):
             yield c
 
 
+def boundary_cases(tier, rng):
+    """BOUNDARY: the empty graph (fresh, and emptied in place with remove_nodes_from after a warm-up), single nodes, isolated
+    nodes only, a node dropped in place; every one also with L = S = set() passed explicitly (same two objects for the three
+    calls, checked to stay empty) instead of omitted"""
+    empty = gr.G([])
+    for ex in (False, True):
+        yield {"kind": "empty", "g": empty, "oracle": True, "_explicit": ex}
+        for n in (1, 2, 3, 4, 5):
+            yield {"kind": "isolated%d" % n, "g": gr.G(range(n)), "oracle": True, "_explicit": ex}
+        for n in (1, 2, 3):
+            for g0 in gr.enum_admg(n):
+                yield {"kind": "emptied%d" % n, "g0": g0, "g": empty, "oracle": True, "_explicit": ex}
+                if n == 3:
+                    v = rng.choice(g0["V"])
+                    h = {"V": [w for w in g0["V"] if w != v], **{k: [e for e in g0[k] if v not in e] for k in "DBUC"}}
+                    yield {"kind": "dropnode3", "g0": g0, "g": h, "oracle": True, "_explicit": ex}
+    for n in (2, 3):       # explicit empty sets on every small graph
+        for g in gr.enum_admg(n):
+            yield {"kind": "explicit%d" % n, "g": g, "oracle": True, "_explicit": True}
+
+
 def gen_cases(tier, rng):
     quick = tier == "quick"
+    yield from boundary_cases(tier, rng)
     yield from repeat_cases(tier, rng)
     yield from size_cases(tier, rng)
     for n in (1, 2, 3):
@@ -140,11 +164,18 @@ def run_impl(case):
     else:
         A, lab, inv = gr.to_admg(case["g"], case)
     out = {}
+    Lset, Sset = set(), set()
+    before = gr.snapshot(A)
     for name in ("valid_mag", "is_maximal", "has_adc"):
         try:
+            if case.get("_explicit") and name != "has_adc":
+                out[name] = int(bool(getattr(generic, name)(A, Lset, Sset)))
+                continue
             out[name] = int(bool(getattr(generic, name)(A)))
         except Exception as e:  # noqa
             out[name] = "exc:" + type(e).__name__
+    if gr.snapshot(A) != before or Lset or Sset:
+        out["mutated"] = True
     return out
 
 
@@ -156,6 +187,8 @@ def plain(case):
 def compare(case, impl, model):
     if "exc" in impl:
         return "exception"
+    if impl.get("mutated"):
+        return "argument-mutated"
     if model["spec_valid"] != 2 and model["spec_valid"] != model["valid_mag"]:
         return "model-vs-oracle-valid"
     if model["spec_maximal"] != 2 and plain(case) and model["spec_maximal"] != model["is_maximal"]:
@@ -182,7 +215,7 @@ def nontrivial(case, model):
 
 
 def key(case):
-    return (gr.canon(case["g"]), gr.canon(case["g0"]) if case.get("g0") else None, case.get("_order"))
+    return (gr.canon(case["g"]), gr.canon(case["g0"]) if case.get("g0") else None, case.get("_order"), bool(case.get("_explicit")))
 
 
 def shrink(case):
